@@ -49,11 +49,21 @@ mod native {
     }
 
     /// Simple string-based cache key compatible with cascette-cache
-    #[derive(Debug, Clone, PartialEq, Eq)]
+    #[derive(Debug, Clone)]
     pub struct ProtocolCacheKey {
         key: String,
         cached_key: OnceLock<String>,
     }
+
+    // Manual implementation to exclude the OnceLock field, like Hash below: a key
+    // whose cache-key string has been materialised must equal a fresh one
+    impl PartialEq for ProtocolCacheKey {
+        fn eq(&self, other: &Self) -> bool {
+            self.key == other.key
+        }
+    }
+
+    impl Eq for ProtocolCacheKey {}
 
     impl std::hash::Hash for ProtocolCacheKey {
         fn hash<H: std::hash::Hasher>(&self, state: &mut H) {
